@@ -235,6 +235,14 @@ def case_constrained(fam, rep):
             for n in range(k):
                 job.extract(n, inplace=False)
             run.configs.add(str(("constrained", fam, bkind, k)))
+            # the same job object evaluated again with another boundary dictionary (and number of modes): nothing of the first
+            # evaluation may survive (free unknowns, pairs, shapes)
+            job.boundaries = dict(b, **{"far": fem.Boundary(field[0], fx=float(L[0]))}) if bkind != 2 else {"left": fem.Boundary(field[0], fx=0.0)}
+            nfree2 = len(fem.dof.partition(field, job.boundaries)[1])
+            k2 = max(1, min(k + 1, nfree2 - 2))
+            job.evaluate(k=k2)
+            job.extract(0, inplace=False)
+            run.units["modal:re-evaluated-with-other-boundaries"] += 1
             # the same body in a sweep of unit systems (stiffness and density magnitudes from 1e-9 to 1e6)
             um = solid.umat
             sweep = ((5, -9), (4, -8), (3, -9), (0, -6), (2, -7), (0, 0))[rep % 2::2] if 0.5 < float(np.max(L)) < 5 else ()
@@ -426,7 +434,7 @@ def cases(tier, seed):
 SPEC = {
     "required_units": ["modal:residual", "modal:prescribed", "modal:scatter", "modal:frequency", "modal:rigid-modes:2d", "modal:rigid-modes:3d",
                        "modal:invariance", "modal:mixed-container", "modal:prestretched", "modal:orthogonal", "modal:items>=2", "modal:parallel",
-                       "modal:item:SolidBodyNearlyIncompressible", "modal:other-unit-system", "modal:unit-sweep", "modal:spectrum", "modal:mass-definition", "modal:sub-mesh-items"],
+                       "modal:item:SolidBodyNearlyIncompressible", "modal:other-unit-system", "modal:unit-sweep", "modal:spectrum", "modal:mass-definition", "modal:sub-mesh-items", "modal:re-evaluated-with-other-boundaries"],
     "rule": ("linear-elastic bodies on 8 element families (3D and plane strain) with random box dimensions, elastic constants, densities, three "
              "kinds of boundary dictionaries, 1..12 requested modes; unconstrained bodies through a solver= with a small negative shift; "
              "mixed u/p/J container; every evaluate()/extract() is judged by the post-hooks with K and M re-assembled from item copies; a "
